@@ -159,14 +159,62 @@ impl K {
     }
 }
 
+// Caller-callback panics in K::hash / K::eq. One run at a time executes in a worker process,
+// so the countdowns are process-global; they only tick while a simulated operation is
+// executing on the calling thread (never during the harness's own lookups and snapshots).
+static HASH_PANIC_IN: std::sync::atomic::AtomicI64 = std::sync::atomic::AtomicI64::new(-1);
+static EQ_PANIC_IN: std::sync::atomic::AtomicI64 = std::sync::atomic::AtomicI64::new(-1);
+static KEY_PANICS_INJECTED: std::sync::atomic::AtomicU32 = std::sync::atomic::AtomicU32::new(0);
+thread_local! {
+    static IN_OP: std::cell::Cell<bool> = const { std::cell::Cell::new(false) };
+}
+
+/// Arms (>= 0: panic in the n-th call from now) or disarms (-1) the K::hash / K::eq panics.
+pub fn arm_key_panics(hash_in: i64, eq_in: i64) {
+    use std::sync::atomic::Ordering::SeqCst;
+    HASH_PANIC_IN.store(hash_in, SeqCst);
+    EQ_PANIC_IN.store(eq_in, SeqCst);
+    KEY_PANICS_INJECTED.store(0, SeqCst);
+}
+pub fn key_panics_injected() -> u32 {
+    KEY_PANICS_INJECTED.load(std::sync::atomic::Ordering::SeqCst)
+}
+/// Marks the calling thread as (not) executing a simulated operation.
+pub fn set_in_op(b: bool) {
+    IN_OP.with(|c| c.set(b));
+}
+fn key_tick(c: &std::sync::atomic::AtomicI64) -> bool {
+    use std::sync::atomic::Ordering::SeqCst;
+    if !IN_OP.with(|c| c.get()) {
+        return false;
+    }
+    let v = c.load(SeqCst);
+    if v < 0 {
+        return false;
+    }
+    if v == 0 {
+        c.store(-1, SeqCst);
+        KEY_PANICS_INJECTED.fetch_add(1, SeqCst);
+        return true;
+    }
+    c.store(v - 1, SeqCst);
+    false
+}
+
 impl PartialEq for K {
     fn eq(&self, o: &K) -> bool {
+        if key_tick(&EQ_PANIC_IN) {
+            panic!("{}", INJECTED_PANIC);
+        }
         self.k == o.k
     }
 }
 impl Eq for K {}
 impl Hash for K {
     fn hash<H: Hasher>(&self, h: &mut H) {
+        if key_tick(&HASH_PANIC_IN) {
+            panic!("{}", INJECTED_PANIC);
+        }
         h.write_u16(self.k);
     }
 }
